@@ -30,12 +30,16 @@ SPEC = {
                     'follow-mode equality is only asserted on trees without directory cycles'],
 }
 
+# written segments may walk round a symlink cycle as often as the pattern has segments: the reference walker goes deep enough
+# for every pattern generated here, and nothing is asserted about paths beyond its horizon
+WALK_DEPTH = 26
+
 LINKS = ['dir', 'dir', 'parent', 'self', 'sibling', 'sibling', 'hidden', 'dot', 'file', 'dangling']
 
 
 def make_walker(root, fn, strict=True):
     return T.Walker(root, dot='DOTGLOB' in fn, globstar='GLOBSTAR' in fn, globstarlong='GLOBSTARLONG' in fn, follow='FOLLOW' in fn,
-                    matchbase='MATCHBASE' in fn, strict_links=strict, maxdepth=8)
+                    matchbase='MATCHBASE' in fn, strict_links=strict, maxdepth=WALK_DEPTH)
 
 
 def through_link_pattern(rng, tr):
@@ -146,6 +150,9 @@ def check_glob(ctx, tr, rng, k, j, mon):
                 continue
             if symlink_positions(root, L):
                 ctx.count('listed_dirs_with_symlink_component')
+                if len(L.split('/')) >= WALK_DEPTH - 2:
+                    ctx.count('beyond_walker_horizon')
+                    continue
                 if L not in w.listed:
                     ctx.disagree('glob lists a directory through a path in which a symlink occupies a position matched by `**`',
                                  dict(wit, listed=L, walker_lists=sorted(w.listed)[:12]))
@@ -156,7 +163,7 @@ def check_glob(ctx, tr, rng, k, j, mon):
         for p in res:
             q = T.norm_result(p)
             pos = symlink_positions(root, q)
-            if pos and min(pos) < len(q.split('/')) - 1 and q not in allowed:
+            if pos and min(pos) < len(q.split('/')) - 1 and q not in allowed and len(q.split('/')) < WALK_DEPTH - 2:
                 fid = findings.classify_path(toks, p, model_spec(fn), True)
                 ctx.disagree('glob returns a path that goes through a symlinked directory at a `**` position',
                              dict(wit, path=p), fid)
